@@ -63,7 +63,13 @@ def all_ops(run):
 
 
 def login_read(op) -> Optional[bytes]:
-    return op.app_reads[0] if op.app_reads else None
+    """The login reply as the application read it; if the library's reads are not observable through the
+    StreamReader seam, what the device sent in one piece."""
+    if op.app_reads:
+        return op.app_reads[0]
+    if op.exchanges and op.exchanges[0].mode == "ok":
+        return op.exchanges[0].sent
+    return None
 
 
 def size_class(n: int) -> str:
@@ -92,6 +98,15 @@ def judge_c01(scn, run) -> Tuple[List[Viol], Dict[str, int]]:
                 cnt(c, "grey:deadlocked-run")
             if any(op.outcome and op.outcome[0] == "exc" and op.outcome[1] in ("TimeoutError", "CancelledError") for op in cl.ops):
                 cnt(c, "probe:operation-abandoned-by-caller")
+    # anything written while connecting, disconnecting or leaving the context must be a whole signed frame too
+    for cl in run.clients:
+        for op in cl.ops:
+            if op.kind in LIFECYCLE:
+                for u in op.units:
+                    cnt(c, "judged")
+                    for p in frames.wellformed_problems(u):
+                        v.append(("C01/%s/in-%s" % (p if len(p) < 20 else "too-short", op.kind),
+                                  "%s wrote %d bytes that are not a whole signed frame (%s): %s" % (op.kind, len(u), p, u.hex()[:80])))
     for cl, op in all_ops(run):
         lr = login_read(op)
         for i, u in enumerate(op.units):
@@ -710,6 +725,12 @@ def judge_c16(scn, run) -> Tuple[List[Viol], Dict[str, int]]:
         lr = login_read(op)
         session = lr[8:12] if lr is not None and len(lr) >= 12 else b"\x00" * 4
         dev = {"device_id": bytes.fromhex(cl.cfg["id"])}
+        if had_query:
+            exp, fmap = frames.build("get_state2", session, 0, dev)
+            d = diff_fields(op.units[1], exp, fmap, ignore=("timestamp",))
+            if d:
+                v.append(("C16/state-query-frame/%s" % "+".join(d[:3]),
+                          "the state query sent before the command differs from the protocol layout in %s: %s" % (d, op.units[1].hex())))
         # the command frames this call must send (their mutual order is not part of the statement)
         want: List[Tuple[str, str, Any]] = []
         if main and upd:
